@@ -50,8 +50,21 @@ def make_cases(rng, tier):
                           % (k, 1 + k % 5, k, k, k) for k in range(nst)) + "\n@compute @workgroup_size(1) fn main() { _ = b0.a; }\n"
             o, nt = dict(rng.choice(structcases.ALL_OPTS)), True
         o["rustfmt"] = (i % 7 == 3)
-        out.append({"id": i, "wgsl": w, "include": None if i % 5 else "a/b.wgsl", "opts": o, "want_text": True, "nt": nt})
+        inc = None if i % 5 else "a/b.wgsl"
+        if i % 10 == 5:
+            inc = EXISTING_REL       # a path that exists relative to ONE of the working directories only
+        out.append({"id": i, "wgsl": w, "include": inc, "opts": o, "want_text": True, "nt": nt})
+    # several formatted outputs well above the 64 KiB pipe buffer, generated concurrently by the worker threads
+    for j in range(4):
+        nst = 280 + 10 * j
+        w = "\n".join("struct H%d_%d { a: vec4<f32>, b: array<f32, %d>, c: mat4x4<f32> }\n@group(0) @binding(%d) var<storage, read> h%d: H%d_%d;"
+                      % (j, k, 1 + k % 5, k, k, j, k) for k in range(nst)) + "\n@compute @workgroup_size(1) fn main() { _ = h0.a; }\n"
+        out.append({"id": len(out), "wgsl": w, "include": None, "opts": {"rustfmt": True, "bm_host": True, "encase": True, "mv": "Glam"},
+                    "want_text": True, "nt": True})
     return out
+
+
+EXISTING_REL = "c18_exists_here.wgsl"
 
 
 def run(tier, seed, replay):
@@ -59,6 +72,8 @@ def run(tier, seed, replay):
     workdir = os.path.join(WORK, ID)
     os.makedirs(workdir, exist_ok=True)
     cases = make_cases(rng, tier)
+    with open(os.path.join(workdir, EXISTING_REL), "w") as f:      # exists relative to cwd = workdir only
+        f.write("// present\n")
     nruns = 8 if tier != "thorough" else 24
     variants = []
     for k in range(nruns):
